@@ -19,6 +19,9 @@ type Printer struct {
 	Horizontal bool
 	// Comments enables trailing-comment choice points.
 	Comments bool
+	// Multiline enables newline / comment choice points inside array and map literals.
+	Multiline bool
+	litDepth  int
 	sb       strings.Builder
 	ncomment int
 }
@@ -57,6 +60,7 @@ func (p *Printer) Program(pr *Prog) string {
 	p.sb.Reset()
 	p.vertical(0, "file-start")
 	p.stmts(pr.Stmts, 0)
+	p.vertical(0, "file-end")
 	return p.sb.String()
 }
 
@@ -197,17 +201,39 @@ func (p *Printer) call(c Call) string {
 	return sb.String()
 }
 
+// litSep emits the separator at a position inside a literal: canonical text def, or (with Multiline)
+// a newline, or a comment and a newline. kind is "open", "sep" or "close".
+func (p *Printer) litSep(kind, def string) string {
+	if !p.Multiline || p.Ch == nil {
+		return def
+	}
+	switch p.Ch(4, "lit-"+kind) {
+	case 1:
+		return "\n"
+	case 2:
+		p.ncomment++
+		return " // m" + strconv.Itoa(p.ncomment) + "\n"
+	case 3:
+		return "\n\n"
+	}
+	return def
+}
+
 func (p *Printer) arrLit(v ArrLit) string {
 	var sb strings.Builder
 	sb.WriteString("[")
-	sb.WriteString(p.pick("ws-after-open", "", " "))
+	if len(v.Els) > 0 {
+		sb.WriteString(p.litSep("open", p.pick("ws-after-open", "", " ")))
+	}
 	for i, e := range v.Els {
 		if i > 0 {
-			sb.WriteString(p.pick("ws-list-sep", " ", "  ", "\t"))
+			sb.WriteString(p.litSep("sep", p.pick("ws-list-sep", " ", "  ", "\t")))
 		}
 		sb.WriteString(p.expr(e, true))
 	}
-	sb.WriteString(p.pick("ws-before-close", "", " "))
+	if len(v.Els) > 0 {
+		sb.WriteString(p.litSep("close", p.pick("ws-before-close", "", " ")))
+	}
 	sb.WriteString("]")
 	return sb.String()
 }
@@ -215,14 +241,18 @@ func (p *Printer) arrLit(v ArrLit) string {
 func (p *Printer) mapLit(v MapLit) string {
 	var sb strings.Builder
 	sb.WriteString("{")
-	sb.WriteString(p.pick("ws-after-open", "", " "))
+	if len(v.Keys) > 0 {
+		sb.WriteString(p.litSep("open", p.pick("ws-after-open", "", " ")))
+	}
 	for i, k := range v.Keys {
 		if i > 0 {
-			sb.WriteString(p.pick("ws-list-sep", " ", "  ", "\t"))
+			sb.WriteString(p.litSep("sep", p.pick("ws-list-sep", " ", "  ", "\t")))
 		}
 		sb.WriteString(k + ":" + p.expr(v.Vals[i], true))
 	}
-	sb.WriteString(p.pick("ws-before-close", "", " "))
+	if len(v.Keys) > 0 {
+		sb.WriteString(p.litSep("close", p.pick("ws-before-close", "", " ")))
+	}
 	sb.WriteString("}")
 	return sb.String()
 }
